@@ -273,8 +273,14 @@ class FakeTRX(Transceiver):
 			log.debug("(%s) Recv FAKE_TOA cmd" % self)
 
 			# Parse and apply both base and threshold
-			self.toa256_base = int(request[1])
-			self.toa256_rand_threshold = int(request[2])
+			(base, threshold) = (int(request[1]), int(request[2]))
+			if threshold < 0:
+				log.error("(%s) FAKE_TOA threshold shall not "
+					"be negative" % self)
+				return -1
+
+			self.toa256_base = base
+			self.toa256_rand_threshold = threshold
 			return 0
 
 		# Timing of Arrival simulation
@@ -317,8 +323,14 @@ class FakeTRX(Transceiver):
 			log.debug("(%s) Recv FAKE_CI cmd" % self)
 
 			# Parse and apply both base and threshold
-			self.ci_base = int(request[1])
-			self.ci_rand_threshold = int(request[2])
+			(base, threshold) = (int(request[1]), int(request[2]))
+			if threshold < 0:
+				log.error("(%s) FAKE_CI threshold shall not "
+					"be negative" % self)
+				return -1
+
+			self.ci_base = base
+			self.ci_rand_threshold = threshold
 			return 0
 
 		# C/I simulation
